@@ -2,6 +2,7 @@
 coq/gen/Gen_registry.v:
 
     fetch_sub_by close_threshold fetch_add_by closed_mark init_refs guard_dec guard_clear_at start_inc : N
+    clear_resets_close_count : bool      which of the two recognised variants of Clear for DataInner is in the tree (F51)
     shapes : list (string * bool)        one entry per function whose body must have exactly the mirrored shape
     gen_unrecognised : list string
 
@@ -72,10 +73,17 @@ SHAPES = [
      'let _ = CLOSE_COUNT.try_with(|count| { let c = count.get(); count.set(c - @N@); '
      'if c == @N@ && self.is_closing { self.registry.spans.clear(id_to_idx(&self.id)); } });',
      ["guard_dec", "guard_clear_at"]),
+    # two recognised variants: as found (F51 present) / with fixes/F51.patch (CLOSE_COUNT reset around the cascade);
+    # which one it is becomes Gen_registry.clear_resets_close_count (the op-level model is the same for both: at op
+    # granularity the count is 0 when a slot is cleared; Registry/MicroReal.v takes the flag as its `fixed` parameter)
     ("clear", SH, r"impl Clear for DataInner\s*\{", "clear",
-     'if self.parent.is_some() { let subscriber = dispatch::get_default(Dispatch::clone); '
-     'if let Some(parent) = self.parent.take() { let _ = subscriber.try_close(parent); } } '
-     'self.extensions .get_mut() .unwrap_or_else(|l| { l.into_inner() }) .clear(); self.filter_map = FilterMap::new();', []),
+     ['if self.parent.is_some() { let subscriber = dispatch::get_default(Dispatch::clone); '
+      'if let Some(parent) = self.parent.take() { let _ = subscriber.try_close(parent); } } '
+      'self.extensions .get_mut() .unwrap_or_else(|l| { l.into_inner() }) .clear(); self.filter_map = FilterMap::new();',
+      'if self.parent.is_some() { let subscriber = dispatch::get_default(Dispatch::clone); '
+      'if let Some(parent) = self.parent.take() { let outer = CLOSE_COUNT.try_with(|count| count.replace(0)); '
+      'let _ = subscriber.try_close(parent); if let Ok(outer) = outer { let _ = CLOSE_COUNT.try_with(|count| count.set(outer)); } } } '
+      'self.extensions .get_mut() .unwrap_or_else(|l| { l.into_inner() }) .clear(); self.filter_map = FilterMap::new();'], []),
     ("stack_push", ST, r"impl SpanStack\s*\{", "push",
      'let duplicate = self.stack.iter().any(|i| i.id == id); self.stack.push(ContextId { id, duplicate }); !duplicate', []),
     ("stack_pop", ST, r"impl SpanStack\s*\{", "pop",
@@ -117,6 +125,7 @@ def analyse(repo):
     consts = {}
     flags = []
     cache = {}
+    variant = {}
     for key, path, hdr, fn, shape, names in SHAPES:
         if path not in cache:
             try:
@@ -133,7 +142,13 @@ def analyse(repo):
         if body is None:
             unrec.append("%s: fn %s not found in %s" % (key, fn, path))
         else:
-            m = re.match(esc(shape), body)
+            alts = shape if isinstance(shape, list) else [shape]
+            m = None
+            for vi, alt in enumerate(alts):
+                m = re.match(esc(alt), body)
+                if m:
+                    variant[key] = vi
+                    break
             if not m:
                 unrec.append("%s: body of %s::%s is not the mirrored shape" % (key, os.path.basename(path), fn))
             else:
@@ -144,16 +159,18 @@ def analyse(repo):
     for n in CONSTS:
         if n not in consts:
             consts[n] = 999999          # an unreadable constant can never equal the model's
-    return consts, flags, unrec
+    return consts, flags, unrec, variant
 
 
 def main(repo, _unused=None):
-    consts, flags, unrec = analyse(repo)
+    consts, flags, unrec, variant = analyse(repo)
     lines = ["(** GENERATED by translators/registry_shapes.py from sharded.rs / stack.rs / layered.rs / registry/mod.rs /",
              "    subscribe/context.rs — do not edit.  Checked by Registry.C05Proofs.model_mirrors_source. *)",
              "From Coq Require Import List String NArith.", "Import ListNotations.", "Local Open Scope string_scope.", ""]
     for n in CONSTS:
         lines.append("Definition %s : N := %d%%N." % (n, consts[n]))
+    lines.append("(* Clear for DataInner resets CLOSE_COUNT around the cascade's try_close(parent) (fixes/F51.patch applied) *)")
+    lines.append("Definition clear_resets_close_count : bool := %s." % ("true" if variant.get("clear") == 1 else "false"))
     lines.append("")
     lines.append("Definition shapes : list (string * bool) :=\n  [%s]." % ";\n   ".join("(%s, %s)" % (coq_str(k), "true" if ok else "false") for k, ok in flags))
     lines.append("")
